@@ -330,3 +330,44 @@ def filename_entry(ctx: Ctx) -> None:
                    f"the result is {detail}: the format of a file opened by name is decided by its name (.sm / .ssc), which only the opened file object carries - "
                    "loading its text (or another object) falls back to sniffing the first parameter", node=fi.node)
     ctx.floor("returning paths of open_with_detected_encoding", n, 1)
+
+
+def text_entry_points(ctx: Ctx) -> None:
+    """C03: the entry points that take a text hand exactly that text on - loads() to load(StringIO(string)), SSCChart.from_str to the tokenizer
+    (string=string, with the caller's strictness), SMChart.from_str to _from_msd(string.split(':')) - on a new object that is returned; nothing is
+    done to the text on the way (no trimming, dedenting, re-encoding)."""
+    from .tables import closed, sums_of as tsums
+    p = ctx.p
+    want = {
+        "simfile:loads": ("load(StringIO(string), strict=strict)", None),
+        "simfile.ssc:SSCChart.from_str": ("OBJ", "OBJ._parse(parse_msd(string=string, ignore_stray_text=not strict))"),
+        "simfile.sm:SMChart.from_str": ("OBJ", "OBJ._from_msd(string.split(':'))"),
+    }
+    for fq, (ret_w, call_w) in want.items():
+        f = p.func(fq)
+        seen = set()
+        for s_ in tsums(ctx, f):
+            k_, v_ = s_.terminal()
+            obj = None
+            for e in s_.effects:
+                if e.kind == "bind" and isinstance(e.target, ast.Name) and isinstance(e.value, ast.Call) and not e.value.args and not e.value.keywords and isinstance(v_, ast.Name) and v_.id == e.target.id:
+                    obj = e.target.id
+            ret = "OBJ" if obj is not None else (ast.unparse(closed(s_, v_)) if v_ is not None else "None")
+            if ret.startswith("load(") and "strict" not in ret:
+                ret = ret
+            calls_ = []
+            for i, e in enumerate(s_.effects):
+                if e.kind == "expr" and isinstance(e.value, ast.Call):
+                    t = ast.unparse(closed(s_, e.value, i, keep=[obj] if obj else []))
+                    if obj:
+                        import re as _re
+                        t = _re.sub(rf"\b{_re.escape(obj)}\b", "OBJ", t)
+                    calls_.append(t)
+            others = [e.text for e in s_.effects if e.kind in ("store", "aug", "delete", "raise")]
+            conds = sorted(s_.plain_assign())
+            seen.add((k_, ret, tuple(calls_), tuple(others), tuple(conds)))
+        norm_ret = {(k, r.replace("strict=strict", "strict=strict"), c, o, cd) for k, r, c, o, cd in seen}
+        good = norm_ret == {("return", ret_w, (call_w,) if call_w else (), (), ())} or (fq == "simfile:loads" and norm_ret == {("return", "load(StringIO(string), strict)", (), (), ())})
+        ctx.expect("R-FWD", f, f"{f.qualname} hands the caller's text on unchanged" + (f": {call_w.replace('OBJ', 'new object')}" if call_w else f": {ret_w}"), good, str(sorted(seen))[:200],
+                   f"{f.qualname} does {sorted(seen)}: a text that is cleaned up, cut or rebuilt before it is parsed is not the text the documented rules are applied to "
+                   "(and differs from what the other entry points build from the same text)", node=f.node)
